@@ -1,5 +1,6 @@
 mod c01;
 mod c08;
+mod c19;
 mod c20;
 mod gen08;
 mod check;
@@ -47,6 +48,7 @@ fn run_property(id: &str, args: &[String]) -> i32 {
     match id {
         "C01" => check::run_check(&c01::C01, &opts),
         "C08" => check::run_check(&c08::C08, &opts),
+        "C19" => check::run_check(&c19::C19, &opts),
         "C20" => check::run_check(&c20::C20, &opts),
         _ => {
             println!("HARNESS-ERROR: unknown property {id}");
@@ -74,6 +76,7 @@ fn replay(path: &str) -> i32 {
     match v.get("property").and_then(|x| x.as_str()) {
         Some("C01") => check::replay_main(&c01::C01, p),
         Some("C08") => check::replay_main(&c08::C08, p),
+        Some("C19") => check::replay_main(&c19::C19, p),
         Some("C20") => check::replay_main(&c20::C20, p),
         other => {
             println!("HARNESS-ERROR: replay file for unknown property {other:?}");
@@ -86,7 +89,7 @@ fn selfcheck(args: &[String], child: bool) -> i32 {
     let n: u64 = args.get(2).and_then(|s| s.parse().ok()).unwrap_or(200);
     let seed: u64 = args.get(1).and_then(|s| s.parse().ok()).unwrap_or(check::verif_seed());
     let ids: Vec<&str> = match args.first().map(String::as_str) {
-        Some("all") | None => vec!["C01", "C08", "C20"],
+        Some("all") | None => vec!["C01", "C08", "C19", "C20"],
         Some(x) => vec![x],
     };
     let mut code = 0;
@@ -94,6 +97,7 @@ fn selfcheck(args: &[String], child: bool) -> i32 {
         let r = match id {
             "C01" => check::selfcheck(&c01::C01, seed, n, child),
             "C08" => check::selfcheck(&c08::C08, seed, n, child),
+            "C19" => check::selfcheck(&c19::C19, seed, n, child),
             "C20" => check::selfcheck(&c20::C20, seed, n, child),
             _ => Err(format!("unknown property {id}")),
         };
